@@ -26,6 +26,7 @@ is a shape the extractor does not understand (fail-closed, less serious, still w
     comprehension-forms / comprehension-calls   set(x for ..) <-> {x for ..}, list(..) <-> [..], dict((k, v) for ..) <-> {k: v for ..}
     swap-independent   x = <pure>; y = <pure>  ->  y = <pure>; x = <pure>
     annotate-locals   x = e  ->  x: object = e ;  add-asserts   a tautological assert on the first parameter at the top of every function
+    modern-annotations  Optional[X] -> X | None, Union[A, B] -> A | B, List[X] -> list[X] ... inside annotations (pyupgrade)
     hoist-strings  a string literal used twice in the functions of a module becomes a module-level constant
     extract-alias  .. x.costs[a] .. x.costs[b] ..  ->  alias = x.costs; .. alias[a] .. alias[b] ..
     inline-alias   c = x.costs; .. c[k] ..  ->  .. x.costs[k] ..   (top-level local bound once to an attribute chain of a parameter)
@@ -646,6 +647,52 @@ class HoistStrings(Rewrite):
         return node
 
 
+
+PEP585 = {"List": "list", "Dict": "dict", "Set": "set", "Tuple": "tuple", "FrozenSet": "frozenset", "Type": "type"}
+
+
+class ModernAnnotations(Rewrite):
+    """Optional[X] -> X | None; Union[A, B] -> A | B; List[X] -> list[X], Dict -> dict, ...  (PEP 604 / 585, what
+    pyupgrade --py310-plus does; only inside annotations)"""
+
+    def _ann(self, node):
+        class T(ast.NodeTransformer):
+            def visit_Subscript(self, n):
+                n = self.generic_visit(n)
+                if isinstance(n.value, ast.Name) and n.value.id == "Optional":
+                    return ast.BinOp(left=n.slice, op=ast.BitOr(), right=ast.Constant(value=None))
+                if isinstance(n.value, ast.Name) and n.value.id == "Union" and isinstance(n.slice, ast.Tuple) and n.slice.elts:
+                    out = n.slice.elts[0]
+                    for e in n.slice.elts[1:]:
+                        out = ast.BinOp(left=out, op=ast.BitOr(), right=e)
+                    return out
+                if isinstance(n.value, ast.Name) and n.value.id in PEP585:
+                    n.value = ast.Name(id=PEP585[n.value.id], ctx=ast.Load())
+                return n
+
+        return T().visit(node)
+
+    def visit_FunctionDef(self, node):
+        node = self.generic_visit(node)
+        changed = False
+        for a in node.args.posonlyargs + node.args.args + node.args.kwonlyargs:
+            if a.annotation is not None and not isinstance(a.annotation, ast.Constant):
+                a.annotation = self._ann(a.annotation)
+                changed = True
+        if node.returns is not None and not isinstance(node.returns, ast.Constant):
+            node.returns = self._ann(node.returns)
+            changed = True
+        if changed:
+            self.hit()
+        return node
+
+    def visit_AnnAssign(self, node):
+        node = self.generic_visit(node)
+        if not isinstance(node.annotation, ast.Constant):
+            node.annotation = self._ann(node.annotation)
+        return node
+
+
 def package_signatures(prog):
     seen, dup = {}, set()
     for mod in prog.modules.values():
@@ -691,6 +738,7 @@ REWRITES = {
     "annotate-locals": lambda sig, only: AnnotateLocals(only),
     "add-asserts": lambda sig, only: AddAsserts(only),
     "hoist-strings": lambda sig, only: HoistStrings(only),
+    "modern-annotations": lambda sig, only: ModernAnnotations(only),
 }
 
 
